@@ -31,6 +31,11 @@ pub enum PolicyCfg {
     DelayAltFlush,
     /// as DelayAltFlush with the other parity
     DelayAltFlush1,
+    /// OnDelay(1ns, Flush), clock advanced before every third op (phase 0, 1, 2): in any three
+    /// consecutive calls the interval elapses before exactly one of them
+    DelayMod3Flush0,
+    DelayMod3Flush1,
+    DelayMod3Flush2,
 }
 
 impl PolicyCfg {
@@ -51,7 +56,7 @@ impl PolicyCfg {
                 interval: never,
                 action: PersistAction::FlushAndFsync,
             },
-            PolicyCfg::DelayExpiredFlush | PolicyCfg::DelayAltFlush | PolicyCfg::DelayAltFlush1 => PersistPolicy::OnDelay {
+            PolicyCfg::DelayExpiredFlush | PolicyCfg::DelayAltFlush | PolicyCfg::DelayAltFlush1 | PolicyCfg::DelayMod3Flush0 | PolicyCfg::DelayMod3Flush1 | PolicyCfg::DelayMod3Flush2 => PersistPolicy::OnDelay {
                 interval: short,
                 action: PersistAction::Flush,
             },
@@ -84,6 +89,9 @@ impl PolicyCfg {
             PolicyCfg::DelayExpiredFsync => "OnDelay(expired,FlushAndFsync)",
             PolicyCfg::DelayAltFlush => "OnDelay(alternating,Flush)",
             PolicyCfg::DelayAltFlush1 => "OnDelay(alternating from the 2nd op,Flush)",
+            PolicyCfg::DelayMod3Flush0 => "OnDelay(elapsing before ops 0,3,6..,Flush)",
+            PolicyCfg::DelayMod3Flush1 => "OnDelay(elapsing before ops 1,4,7..,Flush)",
+            PolicyCfg::DelayMod3Flush2 => "OnDelay(elapsing before ops 2,5,8..,Flush)",
         }
     }
 }
@@ -217,6 +225,12 @@ impl Subject {
             }
             PolicyCfg::DelayAltFlush1 => {
                 if self.op_count % 2 == 1 {
+                    vh::set_clock_ns(vh::clock_ns() + 10);
+                }
+            }
+            PolicyCfg::DelayMod3Flush0 | PolicyCfg::DelayMod3Flush1 | PolicyCfg::DelayMod3Flush2 => {
+                let phase = match self.policy { PolicyCfg::DelayMod3Flush0 => 0, PolicyCfg::DelayMod3Flush1 => 1, _ => 2 };
+                if self.op_count % 3 == phase {
                     vh::set_clock_ns(vh::clock_ns() + 10);
                 }
             }
